@@ -902,7 +902,10 @@ def parseLibrary (libs : List CLib) (ext : Bool) (ys : List SExp) : R CLib := do
       pure { data := st.m.data, defs := st.defs }
   | _ => throw (.syntax "library: expecting (edifLevel …) (technology (numberDefinition …))")
 
-/-- `parse_design` (as repaired) on the content `design …` -/
+/-- `parse_design` (as repaired: io_edif_design_undeclared.diff + edif_design_tail.diff) on the content
+    `design …`.  The code reads `( kw name ( kw name ) )` positionally without looking at the two
+    keywords; shapes other than that are outside the modelled subset. What follows the cellRef
+    inside the design (properties, comments) is skipped. -/
 def parseDesign (libs : List CLib) (ys : List SExp) : R CInst :=
   match ys.tail with
   | nm :: .list cr :: _ => do
@@ -913,11 +916,8 @@ def parseDesign (libs : List CLib) (ys : List SExp) : R CInst :=
             let m ← setAttr (Meta.new.push "identifier") (.str ident)
             pure m.pop : R Meta)
       match cr with
-      | [ck, cx, .list [lk, lx]] =>
-        if !isKw ck "cellref" then throw (.syntax "expecting cellRef")
-        else if !isKw lk "libraryref" then throw (.syntax "expecting libraryRef") else do
-        let cid ← identOfS cx
-        let lid ← identOfS lx
+      | [.atom _, .atom cid, .list [.atom _, .atom lid]] =>
+        if !(validIdentTok cid && validIdentTok lid) then throw (.unsupported "design: reference is not an identifier") else
         match findIdent (libs.map (·.data)) lid with
         | none => throw (.assert "design: library not found by EDIF identifier")
         | some li =>
@@ -928,8 +928,8 @@ def parseDesign (libs : List CLib) (ys : List SExp) : R CInst :=
             | none => throw (.assert "design: definition not found by EDIF identifier")
             | some di =>
               pure { data := m.data.set (S "metadata_prefix") (.list []), ref := some (li, di) }
-      | _ => throw (.syntax "design: expecting (cellRef c (libraryRef l))")
-  | _ => throw (.syntax "design: expecting name and cellRef")
+      | _ => throw (.unsupported "design: expecting (cellRef c (libraryRef l))")
+  | _ => throw (.unsupported "design: expecting name and cellRef")
 
 structure BodySt where
   m : Meta
